@@ -31,6 +31,13 @@ func NewChain(o *drv.Out, net *node.Network, rng *rand.Rand, gmps []int) *Chain 
 	return &Chain{O: o, Net: net, Rng: rng, Mix: net.NewMixer(rng), Names: map[*node.Node]string{}, Gmps: gmps}
 }
 
+func (c *Chain) errText(err lib.ErrorI) string {
+	if c.CanonErrors {
+		return "rejected"
+	}
+	return "err:" + node.ErrCode(err)
+}
+
 // SameDump compares two full state scans.
 func SameDump(a, b []node.KV) bool {
 	if len(a) != len(b) {
@@ -73,7 +80,9 @@ type Chain struct {
 	Gmps  []int
 	gi    int
 	Hold  bool
-	held  [][2]string
+	// CanonErrors: write every error as `rejected` (drivers whose model does not distinguish error codes)
+	CanonErrors bool
+	held        [][2]string
 }
 
 // op records an operation; while hold is set the lines are kept back (the proposer's own lines
@@ -179,7 +188,7 @@ func (c *Chain) Validate(nd *node.Node, p *Proposal) bool {
 	_, err := nd.Validate(p.PropQC, p.RC)
 	res := "ok"
 	if err != nil {
-		res = "err:" + node.ErrCode(err)
+		res = c.errText(err)
 	}
 	c.Op(fmt.Sprintf("%s validate %s gmp=%d", c.Names[nd], p.ID, k), res)
 	c.O.Count("path:validate")
@@ -197,7 +206,7 @@ func (c *Chain) Commit(nd *node.Node, p *Proposal, syncing bool) string {
 	err := nd.HandlePeerBlock(p.QC, syncing)
 	res := ""
 	if err != nil {
-		res = "err:" + node.ErrCode(err)
+		res = c.errText(err)
 	} else {
 		res = fmt.Sprintf("ok state=%s obs=%s", nd.StateDigest(), Observed(nd, h))
 	}
